@@ -571,6 +571,26 @@ impl Mon {
         }
     }
 
+    /// C17: the public getters report the counters
+    pub fn getters(&mut self, s: &CacheSnap<u64>, g: &[Option<u64>; 11]) {
+        const NAMES: [&str; 11] = ["hits", "misses", "keys_added", "keys_updated", "keys_evicted", "cost_added", "cost_evicted",
+                                   "sets_dropped", "sets_rejected", "gets_dropped", "gets_kept"];
+        match &s.metrics {
+            Some(m) => {
+                for i in 0..11 {
+                    if g[i] != Some(m[i]) {
+                        self.hit("C17", format!("get_{}() returned {:?} but the counter holds {}", NAMES[i], g[i], m[i]));
+                    }
+                }
+            }
+            None => {
+                if g.iter().any(|x| x.is_some()) {
+                    self.hit("C17", "a metrics getter returned a value although metrics are disabled".to_string());
+                }
+            }
+        }
+    }
+
     pub fn hung(&mut self, line: &str) {
         let panics = crate::sched::PANICS.load(std::sync::atomic::Ordering::SeqCst);
         if panics > self.panics_seen {
